@@ -265,16 +265,9 @@ func endsInOpenJoin(rows sqlparser.InsertRows) bool {
 	if !ok || sel.Where != nil || sel.GroupBy != nil || sel.Having != nil || sel.OrderBy != nil || sel.Limit != nil || sel.Lock != "" || len(sel.From) == 0 {
 		return false
 	}
+	// joins associate to the left: the top node of the last FROM element is the join written last
 	j, ok := sel.From[len(sel.From)-1].(*sqlparser.JoinTableExpr)
-	for ok {
-		if j.Condition.On == nil && j.Condition.Using == nil && !strings.HasPrefix(j.Join, "natural") {
-			if _, isTable := j.RightExpr.(*sqlparser.AliasedTableExpr); isTable {
-				return true
-			}
-		}
-		j, ok = j.RightExpr.(*sqlparser.JoinTableExpr)
-	}
-	return false
+	return ok && j.Condition.On == nil && j.Condition.Using == nil && !strings.HasPrefix(j.Join, "natural")
 }
 
 func valTypeName(t sqlparser.ValType) string {
